@@ -897,6 +897,20 @@ fn run_op(tx: &mut Transaction, op: &Value) -> Value {
             let stepping_ends = c.take(10000).count() < 10000;
             json!({ "ok": { "same": same, "stepping_ends": stepping_ends } })
         }
+        "asm_roundtrip" => {
+            // bytes -> script -> ASM text -> script -> bytes (plain and extended rendering are reported)
+            match Script::from_bytes(&hx(&op["hex"])) {
+                Err(e) => json!({ "err": e.to_string() }),
+                Ok(sc) => {
+                    let asm = sc.to_asm_string();
+                    let ext = sc.to_extended_asm_string();
+                    match Script::from_asm_string(&asm) {
+                        Ok(back) => json!({ "ok": { "asm": asm, "extended": ext, "reparsed": hex::encode(back.to_bytes()) } }),
+                        Err(e) => json!({ "ok": { "asm": asm, "extended": ext, "reparse_error": e.to_string() } }),
+                    }
+                }
+            }
+        }
         "hash" => {
             let data = hx(&op["input"]);
             let key = op.get("key").map(|k| hx(k)).unwrap_or_default();
